@@ -3,3 +3,5 @@ struct __verif_ev __verif_log[VERIF_LOG_CAP];
 unsigned __verif_n;
 _Bool __verif_crashed;
 _Bool __verif_crash_is_bug;
+unsigned long long __verif_last_load;
+const volatile void *__verif_last_load_p;
